@@ -22,9 +22,11 @@ def c16(cx):
 @prop("C01", "path-sensitive effect analysis (LEA) of every Lexer::lex_token path per mode: R-PROGRESS (each path consumes "
              "input or changes the mode stack), R-PANIC (every panic LEA cannot refute is classified; mode/peek/"
              "checkpoint assertions are decided), R-9XXX (no path reaches an internal-error emission), R-CKPT "
-             "(checkpoint typestate), R-FRAME-BALANCE (frame pops never empty the pending-statement stack). Decides these shape-visible necessary conditions of totality, not linearity.")
+             "(checkpoint typestate), R-FRAME-BALANCE (frame pops never empty the pending-statement stack), structural R-STR-INDEX (no unchecked `str[range]` "
+             "outside two audited sites: a bound off a char boundary is an input-dependent panic). Decides these shape-visible necessary conditions of totality, not linearity.")
 def c01(cx):
     lea_glue.apply(cx, ["R-PROGRESS", "R-PANIC", "R-9XXX", "R-CKPT", "R-FRAME-BALANCE", "R-LOOKAHEAD-LINEAR", "R-PUSH-ORIGIN"])
+    rules_struct.r_str_index(cx, cx.facts("dev-none-stable"))
 
 
 @prop("C04", 'LEA rules R-NEWLINE (every consumed character that may be a line feed is followed by add_line() '
@@ -221,13 +223,15 @@ def c05(cx):
              'the whole identifier), R-STOP-SET (the text scanner of a double-quoted literal ends its token only in '
              'front of the closing quote, end of input or a macro trigger as the property defines it; a whitespace '
              'token only in front of a non-whitespace character), R-REPLAY-AGREE, structural R-CHARCLASS (identifier '
-             'character classes). Decides the '
+             'character classes) and R-HEX-SINK (a hex string literal is valid exactly when it consists of hex digit '
+             'pairs: every pair is checked before it is decoded). Decides the '
              'statement-context flag and token-shape clauses, '
              'not equivalence with a reference lexer.')
 def c11(cx):
     lea_glue.apply(cx, ["R-PENDING", "R-DELIM-SHAPE", "R-NONEMPTY", "R-SPELL", "R-DATALINES-START", "R-ADVANCE-EVIDENCE",
                         "R-KEYWORD-FLOW", "R-STOP-SET", "R-REPLAY-AGREE"])
     rules_cfg.r_charclass(cx)
+    rules_struct.r_hex_sink(cx, cx.facts("dev-none-stable"))
 
 
 @prop("C15", 'R-STATE-INVENTORY (no state outside the lexer object), R-NO-ABSOLUTE (no control flow on history '
